@@ -34,15 +34,14 @@ SHARDS = {"quick": 16, "thorough": 16}
 TIMEOUT = {"quick": 900, "thorough": 7200}
 MIN_CASES = {"quick": 3000, "thorough": 25000}
 REQUIRED_COUNTERS = ["ip_encrypts_logged", "ip_accepts_logged", "ip_rejects_logged", "ble_encrypts_logged", "ble_accepts_logged", "ble_rejects_logged",
-                     "coap_encrypts_logged", "coap_accepts_logged", "coap_rejects_logged", "coap_event_accepts_logged", "sessions_rekeyed", "ble_cancel_sweep_points", "coap_requests_cancelled_in_flight"]
+                     "coap_encrypts_logged", "coap_accepts_logged", "coap_rejects_logged", "coap_event_accepts_logged", "sessions_rekeyed", "ble_cancel_sweep_points", "coap_requests_cancelled_in_flight", "coap_concurrent_request_pairs"]
 
 
 def report(ctx, transport, history, findings, replay, classify=None) -> None:
     seen = set()
     for f in findings:
-        key = f"{transport}-{f['kind']}"
-        if classify is not None:
-            key = classify(f) or key
+        known = classify(f) if classify is not None else None  # (may refine f["kind"])
+        key = known or f"{transport}-{f['kind']}"
         if key in seen:
             continue
         seen.add(key)
@@ -295,7 +294,7 @@ async def ble_history(ctx, history: str, key, cancel_at=None) -> None:
 # CoAP
 # ---------------------------------------------------------------------------------------------
 
-COAP_ALPHABET = "GRSFCNTXYegscb"
+COAP_ALPHABET = "GRSFCNTXYPegscb"
 
 
 class _Resp:
@@ -342,6 +341,14 @@ async def coap_history(ctx, history: str, key) -> None:
 
     async def handler(msg):
         b = behaviour["next"]
+        st["inflight"] = st.get("inflight", 0) + 1
+        st["max_inflight"] = max(st.get("max_inflight", 0), st["inflight"])
+        try:
+            return await handler_inner(msg, b)
+        finally:
+            st["inflight"] -= 1
+
+    async def handler_inner(msg, b):
         try:
             a_recv.decrypt(sim_coap.nonce(st["rc"]), bytes(msg.payload), b"")
             st["rc"] += 1
@@ -353,6 +360,21 @@ async def coap_history(ctx, history: str, key) -> None:
         if b == "L":
             produce_response()  # answered, but the answer never reaches the (cancelled) caller
             await asyncio.sleep(3600)
+        if b == "H":
+            # the network delays this answer: if ANOTHER request of the same session arrives meanwhile, its answer (sent later
+            # by the accessory) is delivered first. Requests of one session are serialised by the controller, so on a correct
+            # tree nothing arrives during the hold and the answers stay in order.
+            r = produce_response()
+            if st.get("hold") is None:
+                st["hold"] = asyncio.Event()
+                for _ in range(12):
+                    if st["hold"].is_set():
+                        break
+                    await asyncio.sleep(0)
+                st["hold"] = None
+            else:
+                st["hold"].set()
+            return _Resp(Code.CHANGED, r)
         if b == "G":
             return _Resp(Code.CHANGED, produce_response())
         if b == "R":
@@ -386,10 +408,13 @@ async def coap_history(ctx, history: str, key) -> None:
 
     async def spy(self_, response):
         before = (self_.recv_ctr, self_.send_ctr, len(log))
+        raised = True
         try:
-            return await orig_dr(self_, response)
+            r = await orig_dr(self_, response)
+            raised = False
+            return r
         finally:
-            facts.append({"recv_before": before[0], "send_before": before[1], "recv_after": self_.recv_ctr, "send_after": self_.send_ctr, "log_from": before[2], "log_to": len(log)})
+            facts.append({"recv_before": before[0], "send_before": before[1], "recv_after": self_.recv_ctr, "send_after": self_.send_ctr, "log_from": before[2], "log_to": len(log), "raised": raised})
 
     cmod.EncryptionContext._decrypt_response = spy
     delivered = []
@@ -411,7 +436,7 @@ async def coap_history(ctx, history: str, key) -> None:
     conn.info = Info()
     resource = cmod.EventResource(conn)
     replay = {"t": "coap", "history": history, "key": key}
-    ctx.case("coap", history, nontrivial=any(c in history for c in "RSFCNTXYZgscb"), sample={"transport": "coap", "history": history}, kind="coap-rand" if len(history) > 6 else "coap")
+    ctx.case("coap", history, nontrivial=any(c in history for c in "RSFCNTXYZPgscb"), sample={"transport": "coap", "history": history}, kind="coap-rand" if len(history) > 6 else "coap")
     ended = False
     try:
         for a in history:
@@ -424,6 +449,14 @@ async def coap_history(ctx, history: str, key) -> None:
                     await asyncio.wait_for(enc.post_bytes(b"\x00\x03\x00\x0a\x00\x00\x00"), 120)
                 except Exception:  # noqa: BLE001 - the monitor judges
                     pass
+            elif a == "P":
+                # two callers at once on one session
+                if enc.coap_ctx is None:
+                    ended = True
+                    break
+                behaviour["next"] = "H"
+                await asyncio.gather(enc.post_bytes(b"\x00\x03\x00\x0a\x00\x00\x00"), enc.post_bytes(b"\x00\x03\x00\x0b\x00\x00\x00"), return_exceptions=True)
+                ctx.count("coap_concurrent_request_pairs")
             elif a in "XY":
                 # the CALLER cancels the request while it is in flight (X: the accessory never answers it, Y: its answer is
                 # lost); the session stays up, so the next request must not reuse the nonce
@@ -496,6 +529,11 @@ async def coap_history(ctx, history: str, key) -> None:
             li = f["log_index"]
             # which _decrypt_response calls had completed or were running when the offending AEAD call happened?
             upto = [fact for fact in facts if fact["log_from"] <= li]
+            if f["keyname"] == "recv" and f["kind"] in ("accepted-twice", "accepted-out-of-order") and st.get("max_inflight", 0) > 1:
+                # requests of one session overlapped (they are serialised on the unchanged tree): answers that cross on the
+                # network are then accepted out of order - not the replay mechanism of the known finding
+                f["kind"] += "-with-overlapping-requests"
+                return None
             if f["keyname"] == "recv" and f["kind"] in ("accepted-twice", "accepted-out-of-order"):
                 # the receive counter only ever moves backwards inside _decrypt_response (rewind-5 / reset-to-zero): a duplicate
                 # or out-of-order accept is the known mechanism iff such a backward move happened before or during this call
@@ -507,6 +545,11 @@ async def coap_history(ctx, history: str, key) -> None:
             if f["keyname"] == "send" and f["kind"] == "nonce-reuse":
                 for fact in upto:
                     if fact["log_to"] <= li and fact["send_after"] < fact["send_before"]:
+                        if fact.get("raised"):
+                            # every resynchronisation guess FAILED (the session must end there): encrypting again with the
+                            # zeroed counter is not the known finding (whose zero guess decrypts the replayed first answer)
+                            f["kind"] += "-after-failed-resynchronisation"
+                            return None
                         return "coap-zero-reset-send-nonce-reuse"
                 return None
             return None
@@ -549,7 +592,7 @@ def run(ctx) -> None:
             idx += 1
             if ctx.mine(idx):
                 await coap_history(ctx, h, ("directed", h))
-        ctx.exhaustive_parts[f"all histories to depth {d_ip} (IP, 10 actions), {d_ble} (BLE, 7), {d_coap} (CoAP, 14)"] = True
+        ctx.exhaustive_parts[f"all histories to depth {d_ip} (IP, 10 actions), {d_ble} (BLE, 7), {d_coap} (CoAP, 15)"] = True
         # BLE cancellation sweep: cancel at every loop iteration of a request (after 0-2 earlier requests)
         for pre in ("", "r", "wr"):
             for k in range(1, ctx.pick(60, 120)):
@@ -566,7 +609,7 @@ def run(ctx) -> None:
             elif t == 1:
                 await ble_history(ctx, "".join(rng.choice("rrrwwPUKct") for _ in range(min(n, 16))), ("r", ctx.shard, k))
             else:
-                await coap_history(ctx, "".join(rng.choice("GGGGGRSFCNXYZeeegscb") for _ in range(n)), ("r", ctx.shard, k))
+                await coap_history(ctx, "".join(rng.choice("GGGGGRSFCNXYZPeeegscb") for _ in range(n)), ("r", ctx.shard, k))
 
     vloop.run(main())
 
